@@ -1,6 +1,6 @@
 (* C09 — lemmas about the snowflake model.  Constants are unfolded from Generated/Consts.v:
    a changed width, shift, mask or limit re-opens the obligations below. *)
-From Coq Require Import ZArith List Bool Lia.
+From Coq Require Import ZArith List Bool Lia Sorted.
 From FV Require Import Generated.Consts Lib.Bits C09.Model.
 Import ListNotations.
 Open Scope Z_scope.
@@ -19,3 +19,699 @@ Definition fields_ok : Prop :=
 
 Lemma fields_disjoint : fields_ok.
 Proof. unfold fields_ok. repeat split; reflexivity. Qed.
+
+(* concrete values, for the arithmetic below *)
+Ltac consts :=
+  unfold x_uuid_MaxSeqID, x_uuid_MachineIDMask, x_uuid_MaxTimeUnits, x_uuid_TimestampShift,
+         x_uuid_BackwardsMaskShift, x_uuid_SequenceBits, x_uuid_MachineIDBits, x_uuid_TimeUnitBits in *.
+
+Definition maxTU := x_uuid_MaxTimeUnits.
+Definition maxSeq := x_uuid_MaxSeqID.
+
+(* the id as a sum of non-overlapping fields *)
+Definition arith (b ts m s : Z) : Z := b * 2 ^ 61 + ts * 2 ^ 24 + m * 2 ^ 10 + s.
+
+Lemma int64_spec v : int64 v = (v + 2 ^ 63) mod 2 ^ 64 - 2 ^ 63.
+Proof.
+  unfold int64. change p63 with (2 ^ 63). change p64 with (2 ^ 64).
+  destruct ((- 2 ^ 63 <=? v) && (v <? 2 ^ 63)) eqn:E; [|reflexivity].
+  rewrite Z.mod_small; lia.
+Qed.
+
+Lemma int64_small v : - 2 ^ 63 <= v < 2 ^ 63 -> int64 v = v.
+Proof. intros H. rewrite int64_spec. rewrite Z.mod_small; lia. Qed.
+
+Lemma shl64_small a k : 0 <= k -> - 2 ^ 63 <= a * 2 ^ k < 2 ^ 63 -> shl64 a k = Z.shiftl a k.
+Proof.
+  intros Hk H. unfold shl64. rewrite Z.shiftl_mul_pow2 by assumption. apply int64_small. assumption.
+Qed.
+
+Lemma compose_arith b ts m s :
+  0 <= b <= 3 -> 0 <= ts <= maxTU -> 0 <= m < 2 ^ 14 -> 0 <= s <= maxSeq ->
+  compose b ts m s = arith b ts m s.
+Proof.
+  unfold maxTU, maxSeq, compose, arith. consts. intros Hb Ht Hm Hs.
+  rewrite !shl64_small by lia.
+  rewrite <- !Z.lor_assoc.
+  rewrite (lor_shiftl_add m s 10) by lia.
+  rewrite (lor_shiftl_add ts _ 24) by lia.
+  rewrite (lor_shiftl_add b _ 61) by lia.
+  lia.
+Qed.
+
+Lemma arith_range b ts m s :
+  0 <= b <= 3 -> 0 <= ts <= maxTU -> 0 <= m < 2 ^ 14 -> 0 <= s <= maxSeq ->
+  0 <= arith b ts m s < 2 ^ 63.
+Proof. unfold maxTU, maxSeq, arith. consts. lia. Qed.
+
+(* a reading before the epoch (but not absurdly far) makes the composed value negative *)
+Lemma compose_negative b ts m s :
+  0 <= b <= 3 -> - 2 ^ 39 <= ts < 0 -> 0 <= m < 2 ^ 14 -> 0 <= s <= maxSeq ->
+  compose b ts m s < 0.
+Proof.
+  unfold maxSeq, compose. consts. intros Hb Ht Hm Hs.
+  rewrite !shl64_small by lia.
+  apply Z.lor_neg. left. apply Z.lor_neg. left. apply Z.lor_neg. right.
+  rewrite Z.shiftl_mul_pow2 by lia. lia.
+Qed.
+
+(* whatever the time and rollback values are (even wrapped ones), the low 24 bits of the id are
+   the machine field and the sequence *)
+Lemma int64_shiftl_high x k : 24 <= k -> exists A, shl64 x k = Z.shiftl A 24.
+Proof.
+  intros Hk. unfold shl64. rewrite int64_spec.
+  replace (Z.shiftl x k) with (Z.shiftl x (k - 24) * 2 ^ 24).
+  2:{ rewrite <- Z.shiftl_mul_pow2 by lia. rewrite Z.shiftl_shiftl by lia. f_equal. lia. }
+  set (y := Z.shiftl x (k - 24)).
+  exists ((y + 2 ^ 39) mod 2 ^ 40 - 2 ^ 39).
+  rewrite Z.shiftl_mul_pow2 by lia.
+  replace (y * 2 ^ 24 + 2 ^ 63) with (2 ^ 24 * (y + 2 ^ 39)) by lia.
+  replace (2 ^ 64) with (2 ^ 24 * 2 ^ 40) by lia.
+  rewrite Z.mul_mod_distr_l by lia. lia.
+Qed.
+
+Lemma compose_low b ts m s :
+  0 <= m < 2 ^ 14 -> 0 <= s <= maxSeq ->
+  exists A, compose b ts m s = A * 2 ^ 24 + m * 2 ^ 10 + s.
+Proof.
+  unfold maxSeq, compose. consts. intros Hm Hs.
+  destruct (int64_shiftl_high b 61 ltac:(lia)) as [B ->].
+  destruct (int64_shiftl_high ts 24 ltac:(lia)) as [T ->].
+  rewrite <- Z.shiftl_lor.
+  rewrite (shl64_small m 10) by lia.
+  rewrite <- !Z.lor_assoc.
+  rewrite (lor_shiftl_add m s 10) by lia.
+  rewrite (lor_shiftl_add _ _ 24) by lia.
+  exists (Z.lor B T). lia.
+Qed.
+
+(* ------------------------------------------------------------------------------------ *)
+(* taking an id apart                                                                    *)
+Ltac Zify.zify_post_hook ::= Z.div_mod_to_equations.
+
+Lemma decode_arith b ts m s :
+  0 <= b <= 3 -> 0 <= ts <= maxTU -> 0 <= m < 2 ^ 14 -> 0 <= s <= maxSeq ->
+  decode (arith b ts m s) = (b, ts, m, s).
+Proof.
+  unfold maxTU, maxSeq, decode, id_bc, id_time, id_machine, id_seq, arith. consts.
+  intros Hb Ht Hm Hs.
+  rewrite !shiftr_div by lia.
+  change 137438953471 with (2 ^ 37 - 1). change 1023 with (2 ^ 10 - 1).
+  rewrite !land_ones_mod by lia.
+  repeat f_equal; lia.
+Qed.
+
+Lemma id_machine_low A m s :
+  0 <= m < 2 ^ 14 -> 0 <= s <= maxSeq -> id_machine (A * 2 ^ 24 + m * 2 ^ 10 + s) = m.
+Proof.
+  unfold maxSeq, id_machine. consts. intros Hm Hs.
+  rewrite shiftr_div by lia. rewrite land_ones_mod by lia. lia.
+Qed.
+
+(* NewSnowflake keeps the low MachineIDBits bits of the machine id *)
+Lemma machine_field mid : 0 <= Z.land mid x_uuid_MachineIDMask < 2 ^ 14 /\
+                          Z.land mid x_uuid_MachineIDMask = mid mod 2 ^ x_uuid_MachineIDBits.
+Proof.
+  consts. change 16383 with (2 ^ 14 - 1). rewrite land_ones_mod by lia. lia.
+Qed.
+
+(* ------------------------------------------------------------------------------------ *)
+(* one call of Next                                                                      *)
+
+Lemma wait_spec ts clk now rest :
+  wait ts clk = Some (now, rest) ->
+  ts < now /\ exists pre, clk = pre ++ now :: rest /\ Forall (fun x => x <= ts) pre.
+Proof.
+  revert now rest. induction clk as [|x clk IH]; intros now rest H; cbn [wait] in H; [discriminate|].
+  destruct (x >? ts) eqn:E.
+  - inversion H; subst. split; [lia|]. exists []. split; [reflexivity | constructor].
+  - destruct (IH _ _ H) as [Hlt [pre [-> Hpre]]]. split; [assumption|].
+    exists (x :: pre). split; [reflexivity|]. constructor; [lia | assumption].
+Qed.
+
+Definition with_rest (r : outcome * sf) (rest : list Z) : outcome * sf * list Z :=
+  let '(o, st') := r in (o, st', rest).
+
+Definition next_b (st : sf) (t : Z) : Z := if t <? lastTU st then bc st + 1 else bc st.
+
+(* case analysis of Next, following the code's branches *)
+Lemma next_elim (P : outcome * sf * list Z -> Prop) st t rest :
+  (maxTU < t -> P (ErrTimeUnitOverflow, st, rest)) ->
+  (t <= maxTU -> t < lastTU st -> 3 <= bc st -> P (ErrClockGoneBackwards, st, rest)) ->
+  (t <= maxTU -> t = lastTU st -> seq st + 1 <= maxSeq ->
+     P (with_rest (finish st (bc st) t (seq st + 1)) rest)) ->
+  (t <= maxTU -> t <> lastTU st -> ~ (t < lastTU st /\ 3 <= bc st) ->
+     P (with_rest (finish st (next_b st t) t 0) rest)) ->
+  (t <= maxTU -> t = lastTU st -> maxSeq < seq st + 1 -> wait t rest = None ->
+     P (Blocked, mkSf (machine st) 0 (lastTU st) (lastID st) (bc st), [])) ->
+  (forall now rest', t <= maxTU -> t = lastTU st -> maxSeq < seq st + 1 ->
+     wait t rest = Some (now, rest') -> maxTU < now ->
+     P (ErrTimeUnitOverflow, mkSf (machine st) 0 (lastTU st) (lastID st) (bc st), rest')) ->
+  (forall now rest', t <= maxTU -> t = lastTU st -> maxSeq < seq st + 1 ->
+     wait t rest = Some (now, rest') -> now <= maxTU ->
+     P (with_rest (finish st (bc st) now 0) rest')) ->
+  P (next (t :: rest) st).
+Proof.
+  intros H1 H2 H3 H4 H5 H6 H7. unfold next, maxTU, maxSeq in *.
+  destruct (t >? x_uuid_MaxTimeUnits) eqn:E1; [apply H1; lia|].
+  destruct (t <? lastTU st) eqn:E2; cbn [andb].
+  - destruct (bc st >=? 3) eqn:E3; [apply H2; lia|].
+    destruct (t =? lastTU st) eqn:E4; [lia|].
+    specialize (H4 ltac:(lia) ltac:(lia) ltac:(lia)). unfold next_b in H4. rewrite E2 in H4.
+    unfold with_rest in H4. destruct (finish st (bc st + 1) t 0). exact H4.
+  - destruct (t =? lastTU st) eqn:E4.
+    + destruct (seq st + 1 >? x_uuid_MaxSeqID) eqn:E5.
+      * destruct (wait t rest) as [[now rest']|] eqn:W.
+        -- destruct (now >? x_uuid_MaxTimeUnits) eqn:E6.
+           ++ apply (H6 now rest'); try lia. reflexivity.
+           ++ specialize (H7 now rest' ltac:(lia) ltac:(lia) ltac:(lia) eq_refl ltac:(lia)).
+              unfold with_rest in H7. destruct (finish st (bc st) now 0). exact H7.
+        -- apply H5; try lia. reflexivity.
+      * specialize (H3 ltac:(lia) ltac:(lia) ltac:(lia)).
+        unfold with_rest in H3. destruct (finish st (bc st) t (seq st + 1)). exact H3.
+    + specialize (H4 ltac:(lia) ltac:(lia) ltac:(lia)). unfold next_b in H4. rewrite E2 in H4.
+      unfold with_rest in H4. destruct (finish st (bc st) t 0). exact H4.
+Qed.
+
+Lemma finish_elim (P : outcome * sf -> Prop) st b ts s :
+  (compose b ts (machine st) s <= lastID st ->
+     P (ErrUUIDIntOverflow, mkSf (machine st) s ts (lastID st) b)) ->
+  (lastID st < compose b ts (machine st) s ->
+     P (Ok (compose b ts (machine st) s), mkSf (machine st) s ts (compose b ts (machine st) s) b)) ->
+  P (finish st b ts s).
+Proof.
+  intros H1 H2. unfold finish.
+  destruct (compose b ts (machine st) s <=? lastID st) eqn:E; [apply H1 | apply H2]; lia.
+Qed.
+
+(* ------------------------------------------------------------------------------------ *)
+(* sentence 1: ids strictly increase — for every state and every clock, by the final guard *)
+
+Definition step_mono (st : sf) (r : outcome * sf * list Z) : Prop :=
+  let '(o, st', _) := r in
+  match o with
+  | Ok id => lastID st < id /\ lastID st' = id
+  | _ => lastID st' = lastID st
+  end.
+
+Lemma finish_mono st b ts s rest : step_mono st (with_rest (finish st b ts s) rest).
+Proof. apply finish_elim; intros; cbn; auto. Qed.
+
+Lemma next_mono clk st : step_mono st (next clk st).
+Proof.
+  destruct clk as [|t rest]; [reflexivity|].
+  apply next_elim; intros; try apply finish_mono; reflexivity.
+Qed.
+
+Lemma run_increasing fuel : forall clk st,
+  Forall (fun id => lastID st < id) (ok_ids (outcomes (run fuel clk st))) /\
+  StronglySorted Z.lt (ok_ids (outcomes (run fuel clk st))).
+Proof.
+  induction fuel as [|f IH]; intros clk st; cbn [run]; [split; constructor|].
+  destruct clk as [|t rest]; [split; constructor|].
+  pose proof (next_mono (t :: rest) st) as M.
+  destruct (next (t :: rest) st) as [[o st'] rest'] eqn:E. unfold step_mono in M.
+  unfold outcomes. cbn [map snd ok_ids]. fold (outcomes (run f rest' st')).
+  destruct (IH rest' st') as [IH1 IH2].
+  destruct o; cbn [ok_ids outcomes map].
+  2-4: rewrite M in IH1; split; assumption.
+  2: split; constructor.
+  destruct M as [M1 M2]. rewrite M2 in IH1. split.
+  - constructor; [exact M1|]. apply Forall_impl with (P := fun id0 => id < id0); [intros; lia | exact IH1].
+  - constructor; assumption.
+Qed.
+
+Lemma sorted_nodup l : StronglySorted Z.lt l -> NoDup l.
+Proof.
+  induction 1 as [|a l Hs IH Hf]; constructor; [|assumption].
+  intro Hin. rewrite Forall_forall in Hf. specialize (Hf _ Hin). lia.
+Qed.
+
+(* ------------------------------------------------------------------------------------ *)
+(* well-formed states: preserved by every call, whatever the clock                       *)
+
+Definition wf (st : sf) : Prop :=
+  0 <= machine st < 2 ^ 14 /\ 0 <= seq st <= maxSeq /\ 0 <= bc st <= 3 /\ 0 <= lastID st.
+
+Lemma wf_new mid t0 : wf (new_sf mid t0).
+Proof.
+  unfold wf, new_sf, maxSeq; cbn. pose proof (machine_field mid). consts. lia.
+Qed.
+
+Definition step_wf (st : sf) (r : outcome * sf * list Z) : Prop :=
+  let '(_, st', _) := r in wf st' /\ machine st' = machine st.
+
+Lemma finish_wf st b s ts rest :
+  wf st -> 0 <= b <= 3 -> 0 <= s <= maxSeq -> step_wf st (with_rest (finish st b ts s) rest).
+Proof.
+  intros (Hm & Hs & Hb & Hl) Hb' Hs'. apply finish_elim; intros; cbn; unfold wf; cbn; repeat split; lia.
+Qed.
+
+Lemma next_wf clk st : wf st -> step_wf st (next clk st).
+Proof.
+  intros W. destruct clk as [|t rest]; [cbn; auto|].
+  pose proof W as (Hm & Hs & Hb & Hl).
+  assert (Z0 : 0 <= 0 <= maxSeq) by (unfold maxSeq; consts; lia).
+  apply next_elim; intros; try (apply finish_wf; try assumption; unfold next_b; try destruct (t <? lastTU st) eqn:?; lia);
+    cbn; try (split; [assumption | reflexivity]);
+    (split; [unfold wf; cbn; repeat split; lia | reflexivity]).
+Qed.
+
+(* ------------------------------------------------------------------------------------ *)
+(* sentence 2: an id decodes to the values that produced it                              *)
+
+(* readings not earlier than 2^39 units (174 years) before the epoch: below that the shifted
+   time wraps around int64 *)
+Definition sane (t : Z) : Prop := - 2 ^ 39 <= t.
+
+Definition step_decode (st : sf) (clk : list Z) (r : outcome * sf * list Z) : Prop :=
+  let '(o, st', _) := r in
+  match o with
+  | Ok id =>
+      id = arith (bc st') (lastTU st') (machine st) (seq st') /\
+      decode id = (bc st', lastTU st', machine st, seq st') /\
+      0 <= lastTU st' <= maxTU /\ In (lastTU st') clk /\ 0 < id < 2 ^ 63
+  | _ => True
+  end.
+
+Lemma finish_decode st b ts s clk rest :
+  wf st -> 0 <= b <= 3 -> 0 <= s <= maxSeq -> sane ts -> ts <= maxTU -> In ts clk ->
+  step_decode st clk (with_rest (finish st b ts s) rest).
+Proof.
+  intros (Hm & Hs & Hb & Hl) Hb' Hs' Hsane Hts Hin. apply finish_elim; intros Hc; cbn; [exact I|].
+  destruct (Z.lt_ge_cases ts 0) as [Hneg|Hpos].
+  - pose proof (compose_negative b ts (machine st) s Hb' (conj Hsane Hneg) Hm Hs'). lia.
+  - rewrite compose_arith in * by (try assumption; lia).
+    pose proof (arith_range b ts (machine st) s Hb' (conj Hpos Hts) Hm Hs').
+    repeat split; try assumption; try lia.
+    apply decode_arith; try assumption; lia.
+Qed.
+
+Lemma next_decode clk st : wf st -> Forall sane clk -> step_decode st clk (next clk st).
+Proof.
+  intros W S. destruct clk as [|t rest]; [exact I|].
+  pose proof W as (Hm & Hs & Hb & Hl).
+  assert (Z0 : 0 <= 0 <= maxSeq) by (unfold maxSeq; consts; lia).
+  assert (St : sane t) by (inversion S; assumption).
+  apply next_elim; intros; try exact I;
+    try (apply finish_decode; try assumption; try (left; reflexivity);
+         unfold next_b; try destruct (t <? lastTU st) eqn:?; lia).
+  (* after the wait *)
+  match goal with Hw : wait _ _ = Some _ |- _ => destruct (wait_spec _ _ _ _ Hw) as [Hlt [pre [-> Hpre]]] end.
+  apply finish_decode; try assumption; try lia.
+  - inversion S as [|? ? _ S']; subst. rewrite Forall_app in S'. destruct S' as [_ S']. inversion S'; assumption.
+  - right. apply in_or_app. right. left. reflexivity.
+Qed.
+
+(* machine field of every id, with no assumption on the clock *)
+Definition step_machine (st : sf) (r : outcome * sf * list Z) : Prop :=
+  let '(o, _, _) := r in
+  match o with Ok id => id_machine id = machine st | _ => True end.
+
+Lemma finish_machine st b ts s rest :
+  wf st -> 0 <= s <= maxSeq -> step_machine st (with_rest (finish st b ts s) rest).
+Proof.
+  intros (Hm & _) Hs. apply finish_elim; intros _; cbn; [exact I|].
+  destruct (compose_low b ts (machine st) s Hm Hs) as [A ->].
+  apply id_machine_low; assumption.
+Qed.
+
+Lemma next_machine clk st : wf st -> step_machine st (next clk st).
+Proof.
+  intros W. destruct clk as [|t rest]; [exact I|].
+  pose proof W as (Hm & Hs & Hb & Hl).
+  assert (Z0 : 0 <= 0 <= maxSeq) by (unfold maxSeq; consts; lia).
+  apply next_elim; intros; try exact I; apply finish_machine; try assumption; lia.
+Qed.
+
+(* ------------------------------------------------------------------------------------ *)
+(* traces: what holds of every entry of a generator's life                               *)
+
+Definition entry_ok (R : sf -> list Z -> outcome * sf * list Z -> Prop) (e : sf * list Z * outcome) : Prop :=
+  let '(st, clk, o) := e in R st clk (next clk st) /\ o = fst (fst (next clk st)).
+
+(* the rest of the clock is a suffix of the clock *)
+Lemma next_suffix clk st : exists pre, clk = pre ++ snd (next clk st).
+Proof.
+  destruct clk as [|t rest]; [exists []; reflexivity|].
+  apply next_elim; intros; unfold with_rest;
+    try match goal with |- context [finish ?a ?b ?c ?d] => destruct (finish a b c d) end; cbn [snd];
+    try (exists [t]; reflexivity);
+    try (exists (t :: rest); rewrite app_nil_r; reflexivity);
+    match goal with Hw : wait _ _ = Some _ |- _ => destruct (wait_spec _ _ _ _ Hw) as [_ [pre [-> _]]] end;
+    exists (t :: pre ++ [now]); cbn; rewrite <- app_assoc; reflexivity.
+Qed.
+
+Lemma run_entries (I : sf -> Prop) (Q : Z -> Prop) (R : sf -> list Z -> outcome * sf * list Z -> Prop) :
+  (forall st clk, I st -> Forall Q clk -> I (snd (fst (next clk st)))) ->
+  (forall st clk, I st -> Forall Q clk -> R st clk (next clk st)) ->
+  forall fuel clk st, I st -> Forall Q clk -> Forall (entry_ok R) (run fuel clk st).
+Proof.
+  intros HI HR. induction fuel as [|f IH]; intros clk st Hst Hclk; cbn [run]; [constructor|].
+  destruct clk as [|t rest]; [constructor|].
+  pose proof (HI _ _ Hst Hclk) as HI'. pose proof (HR _ _ Hst Hclk) as HR'.
+  destruct (next_suffix (t :: rest) st) as [pre Hpre].
+  destruct (next (t :: rest) st) as [[o st'] rest'] eqn:E. cbn [fst snd] in *.
+  assert (Hrest : Forall Q rest').
+  { rewrite Hpre in Hclk. apply Forall_app in Hclk. tauto. }
+  constructor.
+  - unfold entry_ok. rewrite E. split; [assumption | reflexivity].
+  - destruct o; try (apply IH; assumption). constructor.
+Qed.
+
+Lemma ok_ids_in id tr : In id (ok_ids (outcomes tr)) -> exists st clk, In (st, clk, Ok id) tr.
+Proof.
+  induction tr as [|[[st clk] o] tr IH]; cbn; [tauto|].
+  destruct o; cbn; intros H;
+    try (destruct (IH H) as (st' & clk' & Hin); exists st', clk'; right; exact Hin).
+  destruct H as [->|H].
+  - exists st, clk. left. reflexivity.
+  - destruct (IH H) as (st' & clk' & Hin). exists st', clk'. right. exact Hin.
+Qed.
+
+(* every state a generator reaches is well-formed and carries the machine field it was given *)
+Definition wfm (m : Z) (st : sf) : Prop := wf st /\ machine st = m.
+
+Lemma wfm_next m st clk : wfm m st -> Forall (fun _ => True) clk -> wfm m (snd (fst (next clk st))).
+Proof.
+  intros [W M] _. pose proof (next_wf clk st W) as H. unfold step_wf in H.
+  destruct (next clk st) as [[o st'] rest]. cbn. destruct H as [H1 H2]. split; [assumption | congruence].
+Qed.
+
+Lemma trace_machine mid t0 clk id :
+  In id (ok_ids (outcomes (run_all clk (new_sf mid t0)))) ->
+  id_machine id = Z.land mid x_uuid_MachineIDMask.
+Proof.
+  intros Hin. destruct (ok_ids_in _ _ Hin) as (st & c & He).
+  pose proof (run_entries (wfm (Z.land mid x_uuid_MachineIDMask)) (fun _ => True)
+                (fun st _ r => step_machine st r /\ machine st = Z.land mid x_uuid_MachineIDMask)) as H.
+  assert (T : Forall (fun _ : Z => True) clk) by (apply Forall_forall; auto).
+  specialize (H (wfm_next _)).
+  assert (HR : forall st clk, wfm (Z.land mid x_uuid_MachineIDMask) st -> Forall (fun _ : Z => True) clk ->
+               step_machine st (next clk st) /\ machine st = Z.land mid x_uuid_MachineIDMask).
+  { intros s c' [W M] _. split; [apply next_machine; assumption | assumption]. }
+  specialize (H HR (length clk) clk (new_sf mid t0) (conj (wf_new mid t0) eq_refl) T).
+  rewrite Forall_forall in H. specialize (H _ He). unfold entry_ok in H.
+  destruct H as [[H1 H2] H3]. unfold step_machine in H1.
+  destruct (next c st) as [[o st'] rest]. cbn in H3. subst o. congruence.
+Qed.
+
+Lemma trace_decode mid t0 clk st c id :
+  Forall sane clk -> In (st, c, Ok id) (run_all clk (new_sf mid t0)) ->
+  step_decode st c (next c st) /\ fst (fst (next c st)) = Ok id /\
+  machine st = Z.land mid x_uuid_MachineIDMask.
+Proof.
+  intros S He.
+  pose proof (run_entries (wfm (Z.land mid x_uuid_MachineIDMask)) sane
+                (fun st c r => step_decode st c r /\ machine st = Z.land mid x_uuid_MachineIDMask)) as H.
+  assert (HI : forall st clk, wfm (Z.land mid x_uuid_MachineIDMask) st -> Forall sane clk ->
+               wfm (Z.land mid x_uuid_MachineIDMask) (snd (fst (next clk st)))).
+  { intros s c' Hw _. apply wfm_next; [assumption | apply Forall_forall; auto]. }
+  assert (HR : forall st clk, wfm (Z.land mid x_uuid_MachineIDMask) st -> Forall sane clk ->
+               step_decode st clk (next clk st) /\ machine st = Z.land mid x_uuid_MachineIDMask).
+  { intros s c' [W M] Sc. split; [apply next_decode; assumption | assumption]. }
+  specialize (H HI HR (length clk) clk (new_sf mid t0) (conj (wf_new mid t0) eq_refl) S).
+  rewrite Forall_forall in H. specialize (H _ He). unfold entry_ok in H.
+  destruct H as [[H1 H2] H3]. repeat split; try assumption. symmetry. exact H3.
+Qed.
+
+(* ------------------------------------------------------------------------------------ *)
+(* sentences 3 and 5: inside the supported range the only failure is the fourth rollback  *)
+
+Definition inr (t : Z) : Prop := 0 <= t <= maxTU.
+
+(* what holds of a generator fed with in-range readings: the last id is bounded by the
+   composition of the current fields, so the final guard never fires *)
+Definition inv (st : sf) : Prop :=
+  wf st /\ 0 <= lastTU st <= maxTU /\
+  lastID st <= arith (bc st) (lastTU st) (machine st) (seq st).
+
+Lemma inv_new mid t0 : inr t0 -> inv (new_sf mid t0).
+Proof.
+  intros H. split; [apply wf_new|]. split; [exact H|].
+  unfold new_sf, arith; cbn. pose proof (machine_field mid). unfold inr, maxTU in H. consts. lia.
+Qed.
+
+Lemma finish_inrange st b ts s rest :
+  wf st -> 0 <= b <= 3 -> 0 <= s <= maxSeq -> 0 <= ts <= maxTU ->
+  lastID st < arith b ts (machine st) s ->
+  with_rest (finish st b ts s) rest =
+  (Ok (arith b ts (machine st) s), mkSf (machine st) s ts (arith b ts (machine st) s) b, rest).
+Proof.
+  intros (Hm & Hs & Hb & Hl) Hb' Hs' Ht Hlt. unfold finish.
+  rewrite compose_arith by assumption.
+  destruct (arith b ts (machine st) s <=? lastID st) eqn:E; [lia | reflexivity].
+Qed.
+
+Definition backward (st : sf) (clk : list Z) : Prop := hd 0 clk < lastTU st.
+
+Definition step_inrange (st : sf) (clk : list Z) (r : outcome * sf * list Z) : Prop :=
+  let '(o, st', _) := r in
+  match o with
+  | Ok _ => inv st' /\
+            ((backward st clk /\ bc st < 3 /\ bc st' = bc st + 1) \/
+             (~ backward st clk /\ bc st' = bc st))
+  | ErrClockGoneBackwards => st' = st /\ backward st clk /\ bc st = 3
+  | Blocked => True
+  | _ => False
+  end.
+
+Ltac simpl_sf := cbn [machine seq bc lastID lastTU].
+
+Lemma inv_after st b ts s :
+  wf st -> 0 <= b <= 3 -> 0 <= s <= maxSeq -> 0 <= ts <= maxTU ->
+  inv (mkSf (machine st) s ts (arith b ts (machine st) s) b).
+Proof.
+  intros (Hm & Hs & Hb & Hl) Hb' Hs' Ht.
+  pose proof (arith_range b ts (machine st) s Hb' Ht Hm Hs').
+  unfold inv, wf; simpl_sf. repeat split; lia.
+Qed.
+
+Lemma next_inrange clk st : inv st -> Forall inr clk -> step_inrange st clk (next clk st).
+Proof.
+  intros (W & HT & HL) S. destruct clk as [|t rest]; [exact I|].
+  pose proof W as (Hm & Hs & Hb & Hl).
+  assert (St : inr t) by (inversion S; assumption). unfold inr in St.
+  assert (Srest : Forall inr rest) by (inversion S; assumption).
+  assert (Z0 : 0 <= 0 <= maxSeq) by (unfold maxSeq; consts; lia).
+  apply next_elim; unfold step_inrange, backward; cbn [hd].
+  - intros; lia.
+  - intros; repeat split; lia.
+  - intros _ -> Hq.
+    rewrite finish_inrange; try assumption; try lia.
+    + cbv beta iota. split; [|right; split; [lia | reflexivity]].
+      apply inv_after; try assumption; lia.
+    + unfold arith in *. lia.
+  - intros _ Hne Hnb. unfold next_b. destruct (t <? lastTU st) eqn:E.
+    + rewrite finish_inrange; try assumption; try lia.
+      * cbv beta iota. split; [|left; repeat split; lia].
+        apply inv_after; try assumption; lia.
+      * unfold arith, maxTU, maxSeq in *. consts. lia.
+    + rewrite finish_inrange; try assumption; try lia.
+      * cbv beta iota. split; [|right; split; [lia | reflexivity]].
+        apply inv_after; try assumption; lia.
+      * unfold arith, maxTU, maxSeq in *. consts. lia.
+  - intros; exact I.
+  - intros now rest' _ _ _ Hw Hnow. destruct (wait_spec _ _ _ _ Hw) as [_ [pre [-> _]]].
+    apply Forall_app in Srest. destruct Srest as [_ Srest]. inversion Srest as [|? ? Hn _]; subst.
+    unfold inr in Hn. lia.
+  - intros now rest' _ -> Hq Hw Hnow. destruct (wait_spec _ _ _ _ Hw) as [Hlt [pre [-> _]]].
+    apply Forall_app in Srest. destruct Srest as [_ Srest]. inversion Srest as [|? ? Hn _]; subst.
+    unfold inr in Hn.
+    rewrite finish_inrange; try assumption; try lia.
+    + cbv beta iota. split; [|right; split; [lia | reflexivity]].
+      apply inv_after; try assumption; lia.
+    + unfold arith, maxTU, maxSeq in *. consts. lia.
+Qed.
+
+(* the rollback counter counts the backward readings seen so far, saturating at 3 *)
+Definition is_back (e : sf * list Z * outcome) : bool :=
+  let '(st, clk, _) := e in hd 0 clk <? lastTU st.
+Definition count_back (tr : list (sf * list Z * outcome)) : Z :=
+  Z.of_nat (length (filter is_back tr)).
+
+Definition entry_inrange (n : Z) (e : sf * list Z * outcome) : Prop :=
+  let '(st, clk, o) := e in
+  bc st = Z.min 3 n /\
+  match o with
+  | Ok _ | Blocked => True
+  | ErrClockGoneBackwards => is_back e = true /\ 3 <= n
+  | _ => False
+  end /\
+  (is_back e = true -> 3 <= n -> o = ErrClockGoneBackwards).
+
+Lemma count_back_cons e tr :
+  count_back (e :: tr) = (if is_back e then 1 else 0) + count_back tr.
+Proof. unfold count_back. cbn [filter]. destruct (is_back e); cbn [length]; lia. Qed.
+
+Lemma count_back_nonneg tr : 0 <= count_back tr.
+Proof. unfold count_back. lia. Qed.
+
+Lemma run_inrange fuel : forall clk st n,
+  inv st -> Forall inr clk -> 0 <= n -> bc st = Z.min 3 n ->
+  forall pre e post, run fuel clk st = pre ++ e :: post -> entry_inrange (n + count_back pre) e.
+Proof.
+  induction fuel as [|f IH]; intros clk st n Hinv S Hn Hbc pre e post Hrun; cbn [run] in Hrun.
+  { destruct pre; discriminate. }
+  destruct clk as [|t rest]; [destruct pre; discriminate|].
+  pose proof (next_inrange (t :: rest) st Hinv S) as Hstep.
+  destruct (next_suffix (t :: rest) st) as [pfx Hpfx].
+  destruct (next (t :: rest) st) as [[o st'] rest'] eqn:E. cbn [snd] in Hpfx.
+  assert (S' : Forall inr rest').
+  { rewrite Hpfx in S. apply Forall_app in S. tauto. }
+  unfold step_inrange, backward in Hstep. cbn [hd] in Hstep.
+  destruct pre as [|e0 pre].
+  - (* the entry is this call *)
+    cbn [app] in Hrun. inversion Hrun as [[He Hpost]]. clear Hrun.
+    unfold count_back; cbn [filter length]. rewrite Z.add_0_r.
+    unfold entry_inrange, is_back. cbn [hd].
+    split; [exact Hbc|].
+    destruct o; try contradiction.
+    + split; [exact I|]. intros Hb H3. destruct Hstep as [_ [[_ [Hlt _]]|[Hnb _]]]; lia.
+    + destruct Hstep as [_ [Hb H3]]. split; [split; lia | reflexivity].
+    + split; [exact I|]. intros Hb H3.
+      (* Blocked happens only when t = lastTU: not a backward reading *)
+      exfalso. revert E. apply next_elim; intros; try discriminate;
+        try (unfold with_rest in *; match goal with H : context [finish ?a ?b ?c ?d] |- _ =>
+               revert H; apply finish_elim; intros; discriminate end); lia.
+  - (* a later entry *)
+    cbn [app] in Hrun. inversion Hrun as [[He0 Hrest]]. clear Hrun.
+    rewrite count_back_cons. subst e0. unfold is_back at 1. cbn [hd].
+    destruct o; try contradiction.
+    + destruct Hstep as [Hinv' [[Hb [Hlt Hbc']]|[Hnb Hbc']]].
+      * replace (t <? lastTU st) with true by lia.
+        replace (n + (1 + count_back pre)) with ((n + 1) + count_back pre) by lia.
+        eapply IH; try eassumption; lia.
+      * replace (t <? lastTU st) with false by lia. cbn [Z.add].
+        eapply IH; try eassumption; lia.
+    + destruct Hstep as [-> [Hb H3]].
+      replace (t <? lastTU st) with true by lia.
+      replace (n + (1 + count_back pre)) with ((n + 1) + count_back pre) by lia.
+      eapply IH; try eassumption; lia.
+    + destruct pre; discriminate.
+Qed.
+
+(* ------------------------------------------------------------------------------------ *)
+(* the statements of Properties.v                                                        *)
+
+Lemma increasing_thm mid t0 clk :
+  StronglySorted Z.lt (ok_ids (outcomes (run_all clk (new_sf mid t0)))) /\
+  Forall (fun id => 0 < id) (ok_ids (outcomes (run_all clk (new_sf mid t0)))) /\
+  NoDup (ok_ids (outcomes (run_all clk (new_sf mid t0)))).
+Proof.
+  destruct (run_increasing (length clk) clk (new_sf mid t0)) as [H1 H2].
+  split; [exact H2|]. split; [exact H1|]. apply sorted_nodup. exact H2.
+Qed.
+
+Lemma decode_thm mid t0 clk st c id :
+  0 <= mid < 65536 -> Forall sane clk ->
+  In (st, c, Ok id) (run_all clk (new_sf mid t0)) ->
+  let st' := snd (fst (next c st)) in
+  decode id = (bc st', lastTU st', mid mod 2 ^ x_uuid_MachineIDBits, seq st') /\
+  id = bc st' * 2 ^ 61 + lastTU st' * 2 ^ 24 + (mid mod 2 ^ x_uuid_MachineIDBits) * 2 ^ 10 + seq st' /\
+  0 <= bc st' <= 3 /\ 0 <= lastTU st' <= x_uuid_MaxTimeUnits /\ 0 <= seq st' <= x_uuid_MaxSeqID /\
+  In (lastTU st') c /\ 0 < id < 2 ^ 63.
+Proof.
+  intros Hmid S He. destruct (trace_decode mid t0 clk st c id S He) as (Hd & Ho & Hm).
+  pose proof (run_entries (wfm (Z.land mid x_uuid_MachineIDMask)) (fun _ => True)
+                (fun st _ _ => wf st)) as HW.
+  assert (T : Forall (fun _ : Z => True) clk) by (apply Forall_forall; auto).
+  specialize (HW (wfm_next _) (fun s _ Hs _ => proj1 Hs) (length clk) clk (new_sf mid t0)
+                 (conj (wf_new mid t0) eq_refl) T).
+  rewrite Forall_forall in HW. specialize (HW _ He). destruct HW as [W _].
+  pose proof (next_wf c st W) as W'. unfold step_wf in W'.
+  unfold step_decode in Hd. destruct (next c st) as [[o st'] rest]. cbn [fst snd] in *. subst o.
+  destruct (machine_field mid) as [_ Hmf]. rewrite Hmf in Hm. rewrite Hm in Hd.
+  destruct Hd as (Hid & Hdec & Ht & Hin & Hrange). destruct W' as [(_ & Hs & Hb & _) _].
+  unfold arith in Hid. unfold maxTU, maxSeq in *. repeat split; try assumption; try lia.
+Qed.
+
+Lemma distinct_machines_thm mid1 mid2 t1 t2 clk1 clk2 id1 id2 :
+  Z.land mid1 x_uuid_MachineIDMask <> Z.land mid2 x_uuid_MachineIDMask ->
+  In id1 (ok_ids (outcomes (run_all clk1 (new_sf mid1 t1)))) ->
+  In id2 (ok_ids (outcomes (run_all clk2 (new_sf mid2 t2)))) ->
+  id1 <> id2.
+Proof.
+  intros Hne H1 H2 Heq. apply trace_machine in H1. apply trace_machine in H2. congruence.
+Qed.
+
+Lemma no_spurious_thm mid t0 clk pre st c o post :
+  0 <= t0 <= x_uuid_MaxTimeUnits -> Forall (fun t => 0 <= t <= x_uuid_MaxTimeUnits) clk ->
+  run_all clk (new_sf mid t0) = pre ++ (st, c, o) :: post ->
+  bc st = Z.min 3 (count_back pre) /\
+  match o with
+  | Ok _ | Blocked => True
+  | ErrClockGoneBackwards => hd 0 c < lastTU st /\ 3 <= count_back pre
+  | _ => False
+  end /\
+  (hd 0 c < lastTU st -> 3 <= count_back pre -> o = ErrClockGoneBackwards).
+Proof.
+  intros Ht0 S Hrun.
+  pose proof (run_inrange (length clk) clk (new_sf mid t0) 0 (inv_new mid t0 Ht0) S ltac:(lia) eq_refl
+                _ _ _ Hrun) as H.
+  unfold entry_inrange, is_back in H. rewrite Z.add_0_l in H.
+  destruct H as (H1 & H2 & H3). split; [exact H1|]. split.
+  - destruct o; try exact H2. destruct H2 as [Hb Hn]. split; [lia | exact Hn].
+  - intros Hb Hn. apply H3; [lia | exact Hn].
+Qed.
+
+Lemma exhausted_thm st t rest :
+  (x_uuid_MaxTimeUnits < t -> next (t :: rest) st = (ErrTimeUnitOverflow, st, rest)) /\
+  (t <= x_uuid_MaxTimeUnits -> t < lastTU st -> 3 <= bc st ->
+     next (t :: rest) st = (ErrClockGoneBackwards, st, rest)).
+Proof.
+  split.
+  - intros H. unfold next. replace (t >? x_uuid_MaxTimeUnits) with true by lia. reflexivity.
+  - intros H1 H2 H3. unfold next. replace (t >? x_uuid_MaxTimeUnits) with false by lia.
+    replace (t <? lastTU st) with true by lia. replace (bc st >=? 3) with true by lia. reflexivity.
+Qed.
+
+(* an id is never returned for a time unit beyond the range, also not after the wait *)
+Lemma no_id_beyond_thm st clk id st' rest :
+  wf st -> Forall sane clk -> next clk st = (Ok id, st', rest) ->
+  0 <= lastTU st' <= x_uuid_MaxTimeUnits /\ id_time id = lastTU st' /\ id_bc id = bc st' /\ bc st' <= 3.
+Proof.
+  intros W S E. pose proof (next_decode clk st W S) as H. pose proof (next_wf clk st W) as W'.
+  rewrite E in H, W'. unfold step_decode in H. unfold step_wf in W'.
+  destruct H as (_ & Hdec & Ht & _). destruct W' as [(_ & _ & Hb & _) _].
+  unfold decode in Hdec. inversion Hdec. unfold maxTU in *. repeat split; lia.
+Qed.
+
+(* ------------------------------------------------------------------------------------ *)
+(* next_k (used by Run.v to compare how many readings a call consumed) describes next    *)
+
+Lemma wait_k_nonneg ts clk : 0 <= wait_k ts clk.
+Proof. induction clk as [|x clk IH]; cbn [wait_k]; [lia|]. destruct (x >? ts); lia. Qed.
+
+Lemma wait_k_spec ts clk :
+  match wait ts clk with
+  | Some (_, rest) => skipn (Z.to_nat (wait_k ts clk)) clk = rest
+  | None => skipn (Z.to_nat (wait_k ts clk)) clk = []
+  end.
+Proof.
+  induction clk as [|x clk IH]; cbn [wait wait_k]; [reflexivity|].
+  destruct (x >? ts) eqn:E; [reflexivity|].
+  pose proof (wait_k_nonneg ts clk).
+  replace (Z.to_nat (1 + wait_k ts clk)) with (S (Z.to_nat (wait_k ts clk))) by lia.
+  cbn [skipn]. exact IH.
+Qed.
+
+Lemma next_k_spec clk st :
+  snd (next clk st) = skipn (Z.to_nat (next_k clk st)) clk.
+Proof.
+  destruct clk as [|t rest]; [reflexivity|].
+  unfold next, next_k.
+  destruct (t >? x_uuid_MaxTimeUnits) eqn:E1; cbn [negb andb]; [reflexivity|].
+  destruct ((t <? lastTU st) && (bc st >=? 3)) eqn:E2; cbn [negb andb]; [reflexivity|].
+  destruct (t =? lastTU st) eqn:E3; cbn [andb].
+  - destruct (seq st + 1 >? x_uuid_MaxSeqID) eqn:E4.
+    + pose proof (wait_k_spec t rest) as W. pose proof (wait_k_nonneg t rest).
+      replace (Z.to_nat (1 + wait_k t rest)) with (S (Z.to_nat (wait_k t rest))) by lia.
+      cbn [skipn].
+      destruct (wait t rest) as [[now rest']|].
+      * destruct (now >? x_uuid_MaxTimeUnits); [symmetry; exact W|].
+        destruct (finish st _ now 0). symmetry; exact W.
+      * symmetry; exact W.
+    + destruct (finish st _ t (seq st + 1)). reflexivity.
+  - destruct (finish st _ t 0). reflexivity.
+Qed.
